@@ -183,6 +183,58 @@ pub fn run(ctx: &mut Ctx) {
             ctx.check("whole-data", &r, t);
         }
     }
+    // size probes: deep paths, long arrays and strings indexed at every position class
+    for n in al::size_classes(thorough) {
+        if !ctx.mine() {
+            continue;
+        }
+        // a chain object/array/object... n levels deep, leaf marked
+        let mut deep = json!("LEAF");
+        let mut segs: Vec<String> = Vec::new();
+        for i in (0..n.min(120)).rev() {
+            if i % 2 == 0 {
+                deep = json!({ "k": deep, "other": i });
+                segs.push("k".into());
+            } else {
+                deep = json!(["pad", deep]);
+                segs.push(if i % 4 == 1 { "1".into() } else { "-1".into() });
+            }
+        }
+        segs.reverse();
+        // segs were pushed leaf-first for reversed construction; rebuild in root-first order
+        let mut path_segs: Vec<String> = Vec::new();
+        for i in 0..n.min(120) {
+            path_segs.push(if i % 2 == 0 { "k".into() } else if i % 4 == 1 { "1".into() } else { "-1".into() });
+        }
+        for cut in [path_segs.len(), path_segs.len().saturating_sub(1), path_segs.len() / 2] {
+            ctx.edge();
+            let pth = path_segs[..cut].join(".");
+            ctx.check("path:size-probe", &var(json!(pth)), &deep);
+            ctx.check("path:size-probe:default", &var(json!([format!("{}.nope", pth), "dflt"])), &deep);
+        }
+        // long array / string, index classes around the ends
+        let arr: Vec<Value> = (0..n).map(|i| json!(format!("e{}", i))).collect();
+        let st: String = (0..n).map(|i| ['a', 'é', '水', '😀'][i % 4]).collect();
+        let nn = n as i64;
+        for i in [0i64, 1, nn / 2, nn - 2, nn - 1, nn, nn + 1, -1, -2, -nn + 1, -nn, -nn - 1, -nn - 2] {
+            ctx.edge();
+            ctx.check("index:size-probe:array", &var(json!(i)), &Value::Array(arr.clone()));
+            ctx.check("index:size-probe:array:path", &var(json!(format!("w.{}", i))), &json!({"w": arr}));
+            ctx.check("index:size-probe:string", &var(json!(i)), &json!(st));
+            ctx.check("index:size-probe:string:path", &var(json!(format!("w.{}", i))), &json!({"w": st}));
+        }
+        // object with many keys (incl. numeric-looking ones)
+        let mut m = Map::new();
+        for i in 0..n {
+            m.insert(format!("{}", i), json!(i));
+            m.insert(format!("k{}", i), json!({"in": i}));
+        }
+        let obj = Value::Object(m);
+        for k in [json!(0), json!(n as i64 - 1), json!(n as i64), json!(format!("k{}.in", n - 1)), json!(format!("k{}.in", n)), json!(format!("{}", n / 2))] {
+            ctx.edge();
+            ctx.check("key:size-probe:object", &var(k), &obj);
+        }
+    }
     // (b) key operand kinds
     let mut ints: Vec<Value> = al::ints_small().into_iter().map(|i| json!(i)).collect();
     ints.extend(al::ints_extreme());
